@@ -955,7 +955,15 @@ func DumpTasks() string {
 	}
 	var lines []string
 	for _, t := range sched.tasks {
-		lines = append(lines, fmt.Sprintf("t%d %s [%s] %s at %s", t.ID, t.Name, t.Kind, stateNames[t.state], SiteName(t.lastSite)))
+		l := fmt.Sprintf("t%d %s [%s] %s at %s", t.ID, t.Name, t.Kind, stateNames[t.state], SiteName(t.lastSite))
+		if t.state == stMutex && t.mu != nil {
+			if t.mu.owner != nil {
+				l += fmt.Sprintf(" (mutex held by t%d %s)", t.mu.owner.ID, stateNames[t.mu.owner.state])
+			} else {
+				l += fmt.Sprintf(" (mutex free, readers=%d)", t.mu.readers)
+			}
+		}
+		lines = append(lines, l)
 	}
 	sort.Strings(lines)
 	return strings.Join(lines, "\n")
